@@ -1420,6 +1420,72 @@ def judge_grid_line(meta):
     return None
 
 
+# ----------------------------------------------------------------------------- font_family, by direct call
+
+FONT_FAMILY_POOL = ['Arial', 'serif', 'sans-serif', 'Black', 'inherit', 'initial', 'x', 'Times', '"My Font"', '"a, b"',
+                    "'q'", '""', '1', '10px', 'f(x)', '[a]', '/', '#fff', ',', ',', ',']
+
+
+def sec_font_family(run):
+    _, utils, _, _, properties = real.mods()
+    sec = run.section('font-family', 'properties.font_family (with its @comma_separated_list) by direct call on values '
+                      'of 0..6 tokens (identifiers, CSS-wide keywords, strings — one holding a comma —, numbers, '
+                      'dimensions, functions, blocks, literals, commas anywhere: leading, trailing, doubled): every '
+                      'ordered pair and every `a, b` of the pool, then random longer values, vs the model; non-trivial = '
+                      'accepted')
+    pool = FONT_FAMILY_POOL
+    atoms = sorted(set(pool))
+    texts = [''] + atoms + [f'{a} {b}' for a in atoms for b in atoms] + [f'{a}, {b}' for a in atoms for b in atoms]
+    for _ in range(run.n(500, 10000)):
+        texts.append(' '.join(run.rng.choice(pool) for _ in range(run.rng.choice([3, 4, 5, 6]))))
+    for text in texts:
+        tokens = tokens_of(text)
+        try:
+            got = properties.font_family(tokens)
+            impl = 'invalid' if got is None else 'ok' + ''.join(f' {enc(f)}' for f in got)
+        except Exception as exc:  # noqa: BLE001
+            impl = real.fail_atom(exc)
+        parts = [[(['s', enc(t.value)] if t.type == 'string' else ['i', enc(t.value)] if t.type == 'ident' else 'x')
+                  for t in utils.remove_whitespace(part)] for part in utils.split_on_comma(tokens)] if tokens else [[]]
+        sec.add(sx.line('font-family', parts), impl, meta={'name': 'font-family', 'css': text},
+                nontrivial=impl != 'invalid', tags=[impl.split(' ')[0], f'parts{min(len(parts), 4)}'])
+
+
+def judge_font_family(meta):
+    """css-fonts-4 §3.1 on the real validator, independently of the source: a comma-separated list, each item one
+    <string> or one or more identifiers (joined by one space); nothing else."""
+    _, _, _, _, properties = real.mods()
+    import tinycss2
+    text = meta['css']
+    tokens = tokens_of(text)
+    if any(t.type == 'ident' and t.lower_value in ('inherit', 'initial') for t in tokens):
+        return None      # known finding css-wide-keyword-as-ident
+    try:
+        got = properties.font_family(tokens)
+    except Exception as exc:  # noqa: BLE001
+        return f'font_family raised {type(exc).__name__} on `{text}`'
+    items, cur, want = [], [], []
+    for t in tinycss2.parse_component_value_list(text):
+        if t.type == 'literal' and t.value == ',':
+            items.append(cur)
+            cur = []
+        elif t.type not in ('whitespace', 'comment'):
+            cur.append(t)
+    items.append(cur)
+    for item in items:
+        if len(item) == 1 and item[0].type == 'string':
+            want.append(item[0].value)
+        elif item and all(t.type == 'ident' for t in item):
+            want.append(' '.join(t.value for t in item))
+        else:
+            want = None
+            break
+    want = tuple(want) if want is not None else None
+    if got != want:
+        return f'`font-family: {text}` gives {got!r}, the grammar of font-family gives {want!r}'
+    return None
+
+
 # ------------------------------------------------------------ gradient images: the computers, by direct call
 
 def gimage_wire(pair, q):
@@ -2841,6 +2907,10 @@ def invalid_declaration(rng, wanted=None):
         decls = tinycss2.parse_blocks_contents(f'{written}: {text}')
         if len(decls) != 1 or decls[0].type != 'declaration':
             continue
+        # it must not swallow what follows it (misnested brackets such as `f( ] [)` balance by count only)
+        after = [d for d in tinycss2.parse_blocks_contents(f'{written}: {text}; --probe: 1') if d.type == 'declaration']
+        if len(after) != 2 or after[1].name != '--probe':
+            continue
         from weasyprint.css.validation import preprocess_declarations
         try:
             if list(preprocess_declarations(BASE_URL, decls)):
@@ -3920,7 +3990,7 @@ class C07(PropCheck):
     id = 'C07'
     extractors = (c07_tables.generate, c07_numeric.generate)
     modules = ('WpModel.Props.C07', 'WpModel.Props.C07Tracks', 'WpModel.Props.C07Gradient',
-               'WpModel.Props.C07GridLine', 'WpModel.Props.C07Expanders', 'WpModel.Props.C07Var', 'WpModel.Props.C07Sheet',
+               'WpModel.Props.C07GridLine', 'WpModel.Props.C07FontFamily', 'WpModel.Props.C07Expanders', 'WpModel.Props.C07Var', 'WpModel.Props.C07Sheet',
                'WpModel.Props.C07Keywords', 'WpModel.Props.C07Descriptors', 'WpModel.Props.C07Numeric',
                'WpModel.Witness.C07')
     trusted_base = (
@@ -3970,6 +4040,7 @@ class C07(PropCheck):
         'length-flags': ['neg:True', 'neg:False', 'pct:True', 'pct:False', 'list:ok', 'list:invalid', 'list-n0', 'list-n1',
                          'list-n2', 'list-n3'],
         'track-size': ['auto', 'template', 'repeat-non-px'],
+        'font-family': ['ok', 'invalid', 'parts1', 'parts2', 'parts3', 'parts4'],
         'grid-line': ['auto', 'line', 'invalid', 'span', 'n0', 'n1', 'n2', 'n3', 'n4'],
         'image-computer': ['linear', 'radial', 'other', 'background-image', 'border-image-source', 'mask-border-source'],
         'computed-units': ['nested', 'flat'] + [f'unit:{u}' for u, _ in UNIT_SPELLINGS_EXACT],
@@ -4013,6 +4084,7 @@ class C07(PropCheck):
         sec_tracks(run)
         sec_gradients(run)
         sec_grid_line(run)
+        sec_font_family(run)
         sec_pending_solve(run)
         sec_sheet(run)
         sec_keywords(run)
@@ -4069,6 +4141,8 @@ class C07(PropCheck):
             return judge_computed_units(meta)
         if section == 'grid-line':
             return judge_grid_line(meta)
+        if section == 'font-family':
+            return judge_font_family(meta)
         if section in ('track-size', 'image-computer'):
             return judge_tracks(meta)
         if section == 'validate-non-shorthand':
